@@ -3,6 +3,7 @@
 # refreshes the ledger first. Usage: tools/refresh_all.sh [--no-ledger]
 cd /verif
 if [ -n "$(git -C /repo status --porcelain)" ]; then echo "/repo not clean"; exit 2; fi
+python3 tools/mkmanifest.py >/dev/null
 ids=$(python3 -c "import json;print(' '.join(c['property_id'] for c in json.load(open('MANIFEST.json'))['checks']))")
 fail=0
 run() { id=$1; if [ "$2" != "--no-ledger" ]; then ./check $id --write-ledger > /dev/null 2>&1; fi; out=$(./check $id 2>&1); rc=$?; echo "$out" | grep -E "VIOLATION|violations;" | cut -c1-200 | tail -2; return $rc; }
